@@ -1172,8 +1172,8 @@ impl World {
                             self.viol.push(Viol { sig: "drive/transmit-size".into(), msg: format!("Transmit.size {} but buffer holds {}", t.size, buf.len()) });
                         }
                         self.handle_transmit(k, t, &buf, maxd, before);
-                        if n_tx > 100_000 {
-                            self.viol.push(Viol { sig: "drive/transmit-loop".into(), msg: format!("connection {k} produced >100000 transmits at one instant") });
+                        if n_tx > 2_000 {
+                            self.viol.push(Viol { sig: "drive/transmit-loop".into(), msg: format!("connection {k} produced more than 2000 transmits at one instant (the pacer releases at most 256 datagrams per burst)") });
                             return;
                         }
                     }
@@ -1652,7 +1652,7 @@ impl World {
             }
             // drive everything dirty at this instant
             for k in 0..self.conns.len() {
-                if !self.conns[k].gone {
+                if !self.conns[k].gone && !self.viol.iter().any(|v| v.sig.starts_with("drive/")) {
                     self.drive_conn(k);
                 }
             }
@@ -1668,7 +1668,7 @@ impl World {
                         again = true;
                     }
                 }
-                if guard > 1000 {
+                if guard > 1000 || self.viol.iter().any(|v| v.sig.starts_with("drive/")) {
                     break;
                 }
             }
@@ -1789,8 +1789,8 @@ impl World {
                 Some(t) => {
                     n_tx += 1;
                     self.handle_transmit(k, t, &buf, maxd, None);
-                    if n_tx > 10_000 {
-                        self.viol.push(Viol { sig: "drive/transmit-loop".into(), msg: format!("connection {k} produced >10000 transmits at one instant") });
+                    if n_tx > 2_000 {
+                        self.viol.push(Viol { sig: "drive/transmit-loop".into(), msg: format!("connection {k} produced more than 2000 transmits at one instant") });
                         break;
                     }
                 }
